@@ -49,6 +49,16 @@ type Workspace struct {
 	Files  []File `json:"files"`
 	Config string `json:"config"` // "default" | "enable-all" | "old-caps" | "few-rules"
 	Custom bool   `json:"custom"` // custom aggregate rules loaded
+	// RuleIgnore: "category/title" -> the rule's ignore.files patterns (user configuration): per-file results then
+	// differ in which rules ran at all, i.e. also in the NOTICES a file comes back with (capability-gated rules)
+	RuleIgnore map[string][]string `json:"rule_ignore,omitempty"`
+	// CapsVersion: with Config "old-caps" the OPA version of capabilities.from ("" = v0.46.0)
+	CapsVersion string `json:"caps_version,omitempty"`
+	// Args: the path arguments (files and directories, relative to the workspace root) the workspace is linted
+	// with, in all their orders; empty = every file of the workspace
+	Args []string `json:"args,omitempty"`
+	// MaxVariants: cap on the number of argument orders that are run (0 = no cap); for workspaces with big files
+	MaxVariants int `json:"max_variants,omitempty"`
 }
 
 const CustomAggRule = `# METADATA
@@ -205,13 +215,50 @@ var FewRules = []string{"prefer-snake-case", "no-defined-entrypoint"}
 
 const oldCapsYAML = "capabilities:\n  from:\n    engine: opa\n    version: v0.46.0\n"
 
+// UserConfigYAML: the user configuration as text ("" for the defaults).
+func (ws Workspace) UserConfigYAML() string {
+	var b strings.Builder
+	if ws.Config == "old-caps" {
+		if ws.CapsVersion == "" {
+			b.WriteString(oldCapsYAML)
+		} else {
+			b.WriteString("capabilities:\n  from:\n    engine: opa\n    version: " + ws.CapsVersion + "\n")
+		}
+	}
+	if len(ws.RuleIgnore) > 0 {
+		byCat := map[string][]string{}
+		for k := range ws.RuleIgnore {
+			cat, title, _ := strings.Cut(k, "/")
+			byCat[cat] = append(byCat[cat], title)
+		}
+		cats := make([]string, 0, len(byCat))
+		for c := range byCat {
+			cats = append(cats, c)
+		}
+		sort.Strings(cats)
+		b.WriteString("rules:\n")
+		for _, c := range cats {
+			b.WriteString("  " + c + ":\n")
+			sort.Strings(byCat[c])
+			for _, t := range byCat[c] {
+				b.WriteString("    " + t + ":\n      ignore:\n        files:\n")
+				for _, pat := range ws.RuleIgnore[c+"/"+t] {
+					b.WriteString("          - \"" + pat + "\"\n")
+				}
+			}
+		}
+	}
+	return b.String()
+}
+
 // UserConfig of a workspace (nil for the defaults).
 func (ws Workspace) UserConfig() (*config.Config, error) {
-	if ws.Config != "old-caps" {
+	y := ws.UserConfigYAML()
+	if y == "" {
 		return nil, nil
 	}
 	var c config.Config
-	if err := yaml.Unmarshal([]byte(oldCapsYAML), &c); err != nil {
+	if err := yaml.Unmarshal([]byte(y), &c); err != nil {
 		return nil, err
 	}
 	return &c, nil
